@@ -90,12 +90,6 @@ class Management:
         if address in self._connections:
             raise ManagementConnectionError(f"Connection to {address} already exists.")
         p2p_connection = P2PConnection(self.xknx, address, rate_limit)
-        try:
-            await p2p_connection.connect()
-        except ManagementConnectionError as exc:
-            logger.error("Establishing connection to %s failed: %s", address, exc)
-            raise
-        self._connections[address] = p2p_connection
 
         def remove_connection_hook() -> None:
             """Remove connection from management."""
@@ -105,6 +99,15 @@ class Management:
                 logger.error("Connection to %s already closed.", address)
 
         p2p_connection.disconnect_hook = remove_connection_hook
+        # register before sending T_Connect: the peer's answer (eg. T_Disconnect)
+        # may be processed before this task resumes from waiting for L_Data.con
+        self._connections[address] = p2p_connection
+        try:
+            await p2p_connection.connect()
+        except ManagementConnectionError as exc:
+            self._connections.pop(address, None)
+            logger.error("Establishing connection to %s failed: %s", address, exc)
+            raise
         return p2p_connection
 
     async def disconnect(self, address: IndividualAddress) -> None:
@@ -236,17 +239,19 @@ class P2PConnection:
             source_address=self.xknx.current_address,
             tpci=TConnect(),
         )
+        self._connected = True  # a T_Disconnect received from now on closes the connection
         try:
             await self.xknx.cemi_handler.send_telegram(connect)
         except ConfirmationError as exc:
+            self._connected = False
             self._response_waiter.cancel()
             raise ManagementConnectionError(
                 f"Connection to {self.address} failed: {exc}"
             ) from exc
         except CommunicationError as exc:
+            self._connected = False
             self._response_waiter.cancel()
             raise ManagementConnectionError("Error while sending Telegram") from exc
-        self._connected = True
 
     async def disconnect(self) -> None:
         """Disconnect from the KNX device. Sends T_Disconnect-PDU (= A_Disconnect, see connect())."""
